@@ -102,6 +102,7 @@ type Engine struct {
 	funcs        map[string]bool
 	stubsUsed    map[string]bool
 	samples      []map[string]interface{}
+	sampleRecs   []*sampleRec
 	maxDecisions int
 	switches     int
 	solverErrs   []string
@@ -299,6 +300,7 @@ func (e *Engine) runPath(w *Worker, prefix []Decision) {
 		e.addInconclusive(fmt.Sprintf("ENGINE-CRASH: %v", r))
 	}
 	var sample map[string]interface{}
+	var rawSample *sampleRec
 	e.mu.Lock()
 	needSample := completed && len(e.samples) < 3
 	e.mu.Unlock()
@@ -308,6 +310,7 @@ func (e *Engine) runPath(w *Worker, prefix []Decision) {
 			r, m := p.solver.CheckModel(nil, p.inputVars())
 			if r == Sat {
 				sample = map[string]interface{}{"path_decisions": len(p.taken), "inputs": modelString(m), "steps": p.steps, "events": p.events}
+				rawSample = &sampleRec{model: m, decisions: append([]Decision(nil), p.taken...)}
 			}
 		}()
 	}
@@ -335,6 +338,9 @@ func (e *Engine) runPath(w *Worker, prefix []Decision) {
 	}
 	if sample != nil && len(e.samples) < 3 {
 		e.samples = append(e.samples, sample)
+		if rawSample != nil {
+			e.sampleRecs = append(e.sampleRecs, rawSample)
+		}
 	}
 }
 
@@ -468,6 +474,7 @@ type HarnessResult struct {
 	WallS          float64                  `json:"wall_s"`
 	MaxDecisions   int                      `json:"max_decisions_on_a_path"`
 	ThreadSwitches int                      `json:"thread_switches"`
+	Validated      int                      `json:"sample_models_replayed_natively"`
 	ReplayL1       string                   `json:"replay_l1,omitempty"`
 	ReplayL2       string                   `json:"replay_l2,omitempty"`
 }
@@ -694,6 +701,19 @@ func cmdCheck(args []string) int {
 				fmt.Printf("INCONCLUSIVE property=%s harness=%s %s\n", id, hc.Func, m)
 			}
 		}
+		// translator validation: completed paths' models are pushed through the natively compiled
+		// harness; the real code must take them without any assertion failing
+		if hc.Native && realViol == 0 && (tier == "thorough" || os.Getenv("VERIF_VALIDATE") != "") {
+			v, bad := validateSamples(verifDir, repo, id, &cc, &hc, tier, e)
+			res.Validated = v
+			for _, m := range bad {
+				res.Inconclusive = append(res.Inconclusive, m)
+				fmt.Printf("INCONCLUSIVE property=%s harness=%s %s\n", id, hc.Func, m)
+				if exit != 1 {
+					exit = 2
+				}
+			}
+		}
 		res.WallS = time.Since(hs).Seconds()
 		results = append(results, res)
 		fmt.Printf("%s %s: paths=%d aborted=%d instrs=%d queries=%d solver=%.1fs assertions=%d(solver:%d) violations=%d wall=%.1fs\n",
@@ -748,6 +768,7 @@ func mergeTier(q, t TierCfg) TierCfg {
 
 func writeEvidence(verifDir, id, tier string, seed int, cc *CheckCfg, results []*HarnessResult, viol int, wall, loadS float64, exit int) {
 	states, trans, queries, oblig := 0, int64(0), 0, 0
+	validated := 0
 	solverS := 0.0
 	var samples []interface{}
 	funcs := map[string]bool{}
@@ -757,6 +778,7 @@ func writeEvidence(verifDir, id, tier string, seed int, cc *CheckCfg, results []
 		queries += r.Queries
 		oblig += r.Obligations
 		solverS += r.SolverS
+		validated += r.Validated
 		for _, s := range r.Samples {
 			s["harness"] = r.Func
 			samples = append(samples, s)
@@ -788,7 +810,7 @@ func writeEvidence(verifDir, id, tier string, seed int, cc *CheckCfg, results []
 		"coverage": map[string]interface{}{
 			"states":                        states,
 			"transitions":                   trans,
-			"traces_validated_against_impl": 0,
+			"traces_validated_against_impl": validated,
 			"samples":                       samples,
 			"queries":                       queries,
 			"assertion_queries":             oblig,
